@@ -131,6 +131,14 @@ def markOne (file : Str) (line : Int) (s : Suppr) : Suppr :=
 def mark (locs : List (Str × Int)) (st : State) : State :=
   locs.foldl (fun st l => st.map (markOne l.1 l.2)) st
 
+/-- the loop of `markUnmatchedInlineSuppressionsAsChecked` over the token stream, with its `currFileIdx` / `currLineNr`
+    variables: a token is looked at iff its (file, line) position differs from the previous token's (file OR line changed) -/
+def markStream : Option (Str × Int) → List (Str × Int) → State → State
+  | _, [], st => st
+  | cur, l :: r, st =>
+    if cur == some l then markStream cur r st
+    else markStream (some l) r (st.map (markOne l.1 l.2))
+
 def checkersReportId : Str := "checkersReport".toList
 
 /-- `getUnmatchedLocalSuppressions(file)`; `pm` = PathMatch::match(s.fileName, file.spath()) per entry -/
